@@ -867,7 +867,13 @@ impl Check for Multi {
         self.id
     }
     fn engine(&self) -> &'static str {
-        if self.parts.iter().any(|p| p.engine() == "K") { "L+K" } else { "L+W" }
+        if self.parts.iter().any(|p| p.engine() == "S") {
+            "T+S"
+        } else if self.parts.iter().any(|p| p.engine() == "K") {
+            "L+K"
+        } else {
+            "L+W"
+        }
     }
     fn level(&self) -> &'static str {
         self.parts[0].level()
@@ -974,7 +980,11 @@ pub fn all() -> Vec<Box<dyn Check>> {
         v.insert(pos, Box::new(Multi { id: "C02", parts: vec![l, k], weights: vec![1, 25] }));
     }
     v.extend(k_checks());
-    v.push(Box::new(crate::tsim::c18::C18Check));
+    v.push(Box::new(Multi {
+        id: "C18",
+        parts: vec![Box::new(crate::tsim::c18::C18Check), Box::new(crate::ssim::C18S)],
+        weights: vec![1, 1],
+    }));
     v.push(Box::new(crate::tsim::c20::C20Check));
     v
 }
